@@ -54,6 +54,11 @@ func (m *simpleMidPool) Put(mid int32) {
 	m.mtx.Lock()
 	defer m.mtx.Unlock()
 
+	if len(m.intervals) == 0 {
+		// every identifier was outstanding
+		m.intervals = []interval{{from: mid - 1, to: mid}}
+		return
+	}
 	idx := sort.Search(len(m.intervals), func(i int) bool {
 		return m.intervals[i].from >= mid
 	})
